@@ -276,7 +276,7 @@ def oracle(sc, r, want=("C07", "C08", "C09")):
             seen = o["res"].get("debug")
             if seen and seen.isdigit() and int(seen) > mx:
                 bad.append(("C08", "idle set larger than max_size", "Debug shows %s connections, max_size %d" % (seen, mx)))
-        if o["op"]["op"] in ("wait_idle", "wait_closed") and isinstance(o["res"], dict) and not o["res"].get("reached"):
+        if o["op"]["op"] in ("wait_idle", "wait_closed", "wait_open_le") and isinstance(o["res"], dict) and not o["res"].get("reached"):
             why = o["op"].get("why", "")
             bad.append(("C08", "maintenance did not do its work within the (generous) deadline: %s" % why, json.dumps(o["op"])))
     # ---- C08: maintenance scan drops only connections that were parked longer than the idle timeout
@@ -473,6 +473,45 @@ def gen_maintenance(rng, kind, n):
     return out
 
 
+def gen_slow_peer(rng, kind, n):
+    """C07 / C08: a peer that is slow but within the configured timeout must not make a send fail or leave a transaction half done:
+    (0) the reply to the message content on a RE-USED connection takes 0.87 x the timeout (6 s): any shorter deadline hidden in the pool shows;
+    (1) every reply of one transaction takes 0.45 x the timeout (1.5 s), the transaction as a whole twice the timeout: only a deadline on the
+    whole send can fire, and what it leaves behind is re-used by the next sends."""
+    out = []
+    for k in range(n):
+        if k % 2 == 0:
+            sc = base(rng, kind, {"max": 1, "min_idle": 0, "idle_ms": 60000}, timeout_ms=6000, probe_delay_us=0, reply_delay_us=0)
+            sc["faults"] = [{"conn": None, "cmd": "BODY", "nth": 1, "act": "stall", "ms": 5200}]
+            sc["senders"] = [[send_op("w0", rng), send_op("w1", rng)]]
+            sc["after"] = [{"op": "debug"}, send_op("w2", rng)]
+            sc["family"] = "slow-reused"
+        else:
+            sc = base(rng, kind, {"max": 2, "min_idle": 0, "idle_ms": 60000}, timeout_ms=1500, probe_delay_us=0, reply_delay_us=0)
+            sc["faults"] = [{"conn": None, "cmd": c, "nth": 0, "act": "stall", "ms": 680} for c in ("MAIL", "RCPT", "DATA", "BODY")]
+            sc["senders"] = [[dict(send_op("x", rng), nrcpt=1)]]
+            sc["after"] = [{"op": "debug"}, send_op("z1", rng), send_op("z2", rng), {"op": "debug"}]
+            sc["family"] = "slow-transaction"
+        out.append(sc)
+    return out
+
+
+def gen_stale_under_traffic(rng, kind, n):
+    """C08: two parked connections, one kept busy by steady traffic: the other one, idle for many idle timeouts, must be closed by the
+    maintenance pass all the same (the scan must not stop at a fresh connection)."""
+    out = []
+    for k in range(n):
+        sc = base(rng, kind, {"max": 3, "min_idle": 0, "idle_ms": 80}, probe_delay_us=0, reply_delay_us=1500)
+        sc["senders"] = [[dict(send_op("p0", rng), size=70000)], [dict(send_op("p1", rng), size=70000)], [dict(send_op("p2", rng), size=70000)]]
+        traffic = []
+        for j in range(22):
+            traffic += [dict(send_op("t%d" % j, rng), size=0), {"op": "sleep", "ms": 25}]
+        sc["after"] = traffic + [{"op": "wait_open_le", "n": 1, "ms": 30, "why": "a connection idle for many idle timeouts is closed by the maintenance pass even while another one is kept fresh by traffic"}]
+        sc["family"] = "stale-under-traffic"
+        out.append(sc)
+    return out
+
+
 def gen_shutdown(rng, kind, n):
     """C09: one or two shutdowns racing 1..3 senders and the maintenance pass; drop with idle connections."""
     out = []
@@ -480,7 +519,7 @@ def gen_shutdown(rng, kind, n):
         mx = rng.randint(1, 3)
         pool = {"max": mx, "min_idle": rng.choice([0, 0, 1, 2]), "idle_ms": rng.choice([60000, 60000, 50])}
         sc = base(rng, kind, pool)
-        variant = k % 5 if k % 10 == 4 else (5 if k % 10 == 9 else k % 4)
+        variant = k % 5 if k % 10 == 4 else (5 if k % 10 == 9 else (6 if k % 10 == 7 else k % 4))
         ns = rng.randint(1, 3)
         for s in range(ns):
             ops = [send_op("s%d-%d" % (s, j), rng) for j in range(rng.randint(1, 4))]
@@ -508,6 +547,14 @@ def gen_shutdown(rng, kind, n):
                 sc["idle_close_ms"] = {str(rng.choice([0, 0, 1])): 15}
                 pause = 60
             sc["after"] = [{"op": "debug"}, {"op": "sleep", "ms": pause}, {"op": "shutdown"}, {"op": "debug"}, send_op("late", rng)]
+        elif variant == 6:
+            # shutdown lands while a send waits for the probe reply of the connection it took from the idle set; the probe then fails:
+            # that send may not fall through to opening a new connection (it had not found the set empty before the shutdown)
+            pool["max"] = 1; pool["min_idle"] = 0; pool["idle_ms"] = 60000
+            sc["probe_delay_us"] = 0; sc["reply_delay_us"] = 0
+            sc["faults"] = [{"conn": 0, "cmd": "NOOP", "nth": 0, "act": "stall_close", "ms": 300}]
+            sc["senders"] = [[send_op("g0", rng), {"op": "sleep", "ms": 40}, send_op("g1", rng)], [{"op": "sleep", "ms": 170}, {"op": "shutdown"}]]
+            sc["after"] = [{"op": "debug"}, send_op("late", rng)]
         elif variant == 4:
             # the maintenance worker is busy (its connect waits 1.4 s for the greeting) while shutdown is called twice
             pool["min_idle"] = rng.choice([1, 2]); pool["idle_ms"] = 60000
